@@ -120,7 +120,7 @@ fn fnv(v: &[u64]) -> u64 {
 #[derive(Clone)]
 enum Call {
     AllPairs { weighted: bool, target: Option<i64>, cutoff: Option<f64>, first_only: bool, with_paths: bool },
-    MultiSource { weighted: bool, first_only: bool, with_paths: bool, sources: Vec<i64> },
+    MultiSource { weighted: bool, target: Option<i64>, first_only: bool, with_paths: bool, sources: Vec<i64> },
     Involving { weighted: bool, node: i64 },
     Betweenness { weighted: bool, normalized: bool },
     Closeness { weighted: bool, wf: bool },
@@ -142,11 +142,11 @@ fn run_call(g: &G, c: &Call) -> Option<Vec<u64>> {
         Call::AllPairs { weighted, target, cutoff, first_only, with_paths } => {
             canon_pairs(&dijkstra::all_pairs(g, *weighted, *target, *cutoff, *first_only, *with_paths))
         }
-        Call::MultiSource { weighted, first_only, with_paths, sources } => canon_pairs(&dijkstra::multi_source(
+        Call::MultiSource { weighted, target, first_only, with_paths, sources } => canon_pairs(&dijkstra::multi_source(
             g,
             *weighted,
             sources.clone(),
-            None,
+            *target,
             None,
             *first_only,
             *with_paths,
@@ -179,7 +179,7 @@ fn serial_reference(g: &G, c: &Call) -> Option<Vec<u64>> {
             }
             canon_pairs(&Ok(m))
         }
-        Call::MultiSource { weighted, first_only, with_paths, sources } => {
+        Call::MultiSource { weighted, target, first_only, with_paths, sources } => {
             // an absent source: no per-source reference (which error is reported first is the entry point's own
             // business); the call is still compared across pool sizes
             if sources.iter().any(|s| !g.has_node(s)) {
@@ -187,7 +187,7 @@ fn serial_reference(g: &G, c: &Call) -> Option<Vec<u64>> {
             }
             let mut m = HashMap::new();
             for s in sources {
-                match dijkstra::single_source(g, *weighted, *s, None, None, *first_only, *with_paths) {
+                match dijkstra::single_source(g, *weighted, *s, *target, None, *first_only, *with_paths) {
                     Ok(x) => {
                         m.insert(*s, x);
                     }
@@ -239,7 +239,14 @@ fn parse_call(t: &mut Toks) -> Option<Call> {
             let weighted = t.i() != 0;
             let first_only = t.i() != 0;
             let with_paths = t.i() != 0;
-            Some(Call::MultiSource { weighted, first_only, with_paths, sources: t.rest_i() })
+            // sources...; a trailing `-1 <target>` selects a target
+            let mut sources = t.rest_i();
+            let mut target = None;
+            if sources.len() >= 2 && sources[sources.len() - 2] == -1 {
+                target = Some(sources[sources.len() - 1]);
+                sources.truncate(sources.len() - 2);
+            }
+            Some(Call::MultiSource { weighted, target, first_only, with_paths, sources })
         }
         "involving" => {
             let weighted = t.i() != 0;
@@ -296,7 +303,7 @@ fn hammer(g: &G, weighted: bool, iters: u64, o: &mut Out) {
     let ref_edges: Vec<Vec<u64>> = names.iter().map(|s| edge_rows(*s)).collect();
     let calls = vec![
         Call::AllPairs { weighted, target: None, cutoff: None, first_only: false, with_paths: true },
-        Call::MultiSource { weighted, first_only: false, with_paths: true, sources: names.clone() },
+        Call::MultiSource { weighted, target: None, first_only: false, with_paths: true, sources: names.clone() },
         Call::Involving { weighted, node: names[0] },
         Call::Betweenness { weighted, normalized: true },
         Call::Closeness { weighted, wf: true },
